@@ -136,15 +136,10 @@ func (s *sharedEntryAttributes) toXmlInternal(parent *etree.Element, onlyNewOrUp
 			return true, nil
 		case s.GetSchema().GetContainer().IsPresence && s.containsOnlyDefaults():
 			// process presence cotnainers with no childs
-			if onlyNewOrUpdated {
-				// presence containers have leafvariantes with typedValue_Empty, so check that
-				if s.leafVariants.shouldDelete() {
-					return false, nil
-				}
-				le := s.leafVariants.GetHighestPrecedence(false, false)
-				if onlyNewOrUpdated && !(le.IsNew || le.IsUpdated) {
-					return false, nil
-				}
+			// presence containers have leafvariantes with typedValue_Empty, the same rules as for
+			// every other value decide whether it is part of the requested view
+			if onlyNewOrUpdated && !s.presenceValueToRender(onlyNewOrUpdated) {
+				return false, nil
 			}
 			newElem := parent.CreateElement(s.PathName())
 			// process the honorNamespace instruction
